@@ -14,6 +14,9 @@ import (
 func renderLoaderLine(l map[string]interface{}, k int) string {
 	fs, _ := l["f"].([]interface{})
 	comma, _ := l["comma"].(bool)
+	if len(fs) == 0 && comma {
+		return []string{",", " , , ,", ",,,,", "\t, ; all fields gone"}[k%4] // nothing but commas: neither blank nor a comment
+	}
 	if len(fs) == 0 {
 		return []string{"", "; a comment", "   ", ";name x", "\t"}[k%5]
 	}
